@@ -443,9 +443,10 @@ def r_relative_to(model, rep):
     path, root = ("param", cx.params[0]), ("param", cx.params[1])
     prefix = ("binop", "+", ("call", ("attr", root, "rstrip"), (("const", "/"),), ()), ("const", "/"))
     rets = [ev for ev in cx.events if ev.kind == "return"]
+    sw = ("call", ("attr", path, "startswith"), (prefix,), ())
     cut = [r for r in rets if r.value == ("sub", path, ("slice", ("call", ("global", "len"), (prefix,), ()), None, None))
-           and r.guards and r.guards[-1] == (("call", ("attr", path, "startswith"), (prefix,), ()), True)]
-    keep = [r for r in rets if r.value == path]
+           and facts.canon_guards(r.guards) == frozenset([facts.canon_guard((sw, True))])]
+    keep = [r for r in rets if r.value == path and facts.canon_guards(r.guards) == frozenset([facts.canon_guard((sw, False))])]
     ok = len(cut) == 1 and len(keep) == 1 and len(rets) == 2
     rep.ob("R-RELATIVE-TO", "extra_files._relative_to", ok, site=cx.site(f.node),
            msg="" if ok else "base path must be cut only on a '/' boundary: prefix = root.rstrip('/') + '/', "
